@@ -114,6 +114,7 @@ package keyed
 //@   props C06 C07 C13
 //@   opt frame = skip
 //@   captured r != nil && r.k != nil && removeNow != nil
+//@   bind removeNow = (*runningRoutine).remove$1
 //
 //@ func (*Keyed).SetContext
 //@   props C07 C13
